@@ -31,6 +31,7 @@ ASSUMPTIONS = [
     'the channel-restricted waveform of a template is get_template(t, unwhiten=False) (C05)',
     'the merged-vs-identical branch of _load_data is exercised through the real loader (configuration kind=load) '
     'on a generated dataset with symbolic assignments',
+    'forms added after seeding rounds: direct get_cluster_mean_waveforms(c) in unwhitened units after the whitened pass (non-identity whitening); uint32 channel positions',
 ]
 STUBS = []
 OUTSIDE = ['float rounding of the weighted mean', 'more spikes/templates than the bound']
